@@ -5,6 +5,7 @@ import (
 	"os"
 	"path/filepath"
 	"regexp"
+	"runtime"
 	"strings"
 	"sync"
 
@@ -385,7 +386,7 @@ func init() {
 		Rule: "two sources: (1) every diff a.Diff(b) of the C01 workloads (9 option sets, hostile string payloads) rendered, re-read, re-rendered, compared field by field, colour-stripped, and applied to a so that the re-read diff gives b; " +
 			"(2) hunk sequences constructed from the public DiffElement fields: all well-formed single shapes (path kind x before/after context x 0..3 removes x 0..3 adds x merge/void), all pairs of them, and triples over a reduced shape set (thorough), with plain and hostile payloads; " +
 			"each compared for text identity, hunk identity and identical effect on an 18-document panel; the reader's (state, header) transitions are recorded through hook VerifReadTrace; non-trivial = >=2 hunks or context or multi-value or merge metadata; distinct = distinct (shapes, payload seed) or (a, b, options)",
-		Floors: map[string]int{"sequence_len_2": 20000, "merge_metadata_line": 800, "void_addition": 200, "context_lines": 5000, "multi_value": 5000,
+		Floors: map[string]int{"sequence_len_2": 20000, "long_string_replacement_renders": 20, "merge_metadata_line": 800, "void_addition": 200, "context_lines": 5000, "multi_value": 5000,
 			"effect_applies": 5000, "#reader_transitions_observed": 25, "colour_codes_present": 10000, "from_diff_multi_hunk": 5000, "reread_patch_gives_b": 20000, "very_long_line_diffs": 50},
 		Assumptions: []string{
 			"a strict hunk after a merge hunk is not representable (metadata lines are additive and inherited) and is excluded, as the property itself does",
@@ -455,7 +456,9 @@ func init() {
 		Name: "from-diff/very-long-lines",
 		N:    qt(60, 1200),
 		Run: func(c *mon.Ctx, i int) {
-			long := func() string { return strings.Repeat(gen.Pick(c.R, []string{"x", "ab", "\u00e9\"", "long line "}), c.R.Range(70000, 200000)/2) }
+			long := func() string {
+				return strings.Repeat(gen.Pick(c.R, []string{"x", "ab", "\u00e9\"", "long line "}), c.R.Range(70000, 200000)/2)
+			}
 			a := map[string]any{"a": 1.0, "b": "short", "c": []any{1.0, 2.0, 3.0}, "z": true}
 			b := map[string]any{"a": 2.0, "b": long(), "c": []any{1.0, long(), 3.0, 4.0}, "zz": false}
 			if i%2 == 1 {
@@ -483,6 +486,45 @@ func init() {
 			}
 		},
 	})
+	p.Strata = append(p.Strata, mon.Stratum{
+		Name: "long-string-replacements",
+		N:    qt(24, 400),
+		Run: func(c *mon.Ctx, i int) {
+			// one long string replaced by another of similar length: the hunk must render, plain and
+			// colored, in memory proportional to its text. Allocation (runtime.MemStats.TotalAlloc) is the
+			// observable: a table over the product of the lengths shows at 4,000 characters already, where
+			// it is harmless; at 70,000 it is 39 GB and the process dies (finding F33).
+			n := []int{2000, 4000, 3000, 70000}[i%4]
+			s1, s2 := midDiffPair(n)
+			if i%8 >= 4 {
+				s2 = s2[:n/2] + "inserted" + s2[n/2:]
+			}
+			aText, bText := ref.ToJSON(map[string]any{"s": s1, "n": 1.0}), ref.ToJSON(map[string]any{"s": s2, "n": 1.0})
+			c.Input("string_bytes", n)
+			c.Feature("long_string_replacement_renders")
+			c.Nontrivial(joinKey("lsr", fmt.Sprint(i)))
+			for _, ro := range [][]jd.Option{nil, {jd.COLOR}} {
+				d := ReadJ(aText).Diff(ReadJ(bText))
+				var m0, m1 runtime.MemStats
+				runtime.ReadMemStats(&m0)
+				text := d.Render(ro...)
+				runtime.ReadMemStats(&m1)
+				alloc := m1.TotalAlloc - m0.TotalAlloc
+				// plain text needs no table at all; a character-level colouring may use a bounded one
+				budget := uint64(64*(len(s1)+len(s2))) + 8<<20
+				if len(ro) > 0 {
+					budget += 56 << 20
+				}
+				if alloc > budget {
+					c.Violation(fmt.Sprintf("Render allocated %d bytes for a hunk whose text has %d bytes (budget %d): memory grows with the product of the string lengths", alloc, len(text), budget),
+						map[string]any{"colored": len(ro) > 0})
+					return
+				}
+			}
+			mk := func() jd.Diff { return ReadJ(aText).Diff(ReadJ(bText)) }
+			c02RoundTrip(c, mk, []string{aText, bText}, nil)
+		},
+	})
 	// (2) constructed shapes
 	p.Strata = append(p.Strata, mon.Stratum{
 		Name:       "constructed/single",
@@ -494,8 +536,13 @@ func init() {
 		},
 	})
 	p.Strata = append(p.Strata, mon.Stratum{
-		Name:       "constructed/pairs",
-		N:          func(t mon.Tier) int { if t == mon.Thorough { return len(allShapes) * len(allShapes) }; return len(allShapes) * len(allShapes) / 3 },
+		Name: "constructed/pairs",
+		N: func(t mon.Tier) int {
+			if t == mon.Thorough {
+				return len(allShapes) * len(allShapes)
+			}
+			return len(allShapes) * len(allShapes) / 3
+		},
 		Exhaustive: func(t mon.Tier) bool { return t == mon.Thorough },
 		Run: func(c *mon.Ctx, i int) {
 			if c.Tier != mon.Thorough {
@@ -516,8 +563,14 @@ func init() {
 		},
 	})
 	p.Strata = append(p.Strata, mon.Stratum{
-		Name:       "constructed/reduced-triples",
-		N:          func(t mon.Tier) int { k := len(reducedShapes); if t == mon.Thorough { return k * k * k }; return k * k * k / 16 },
+		Name: "constructed/reduced-triples",
+		N: func(t mon.Tier) int {
+			k := len(reducedShapes)
+			if t == mon.Thorough {
+				return k * k * k
+			}
+			return k * k * k / 16
+		},
 		Exhaustive: func(t mon.Tier) bool { return t == mon.Thorough },
 		Run: func(c *mon.Ctx, i int) {
 			k := len(reducedShapes)
